@@ -1248,8 +1248,8 @@ static Value builtin_array_pop(Value *args) {
         /* Fixed array (from a literal): take the last element off in place */
         Array *fa = args[0].as.array_val;
         if (fa->length == 0) {
-            fprintf(stderr, "Error: array_pop() on empty array\n");
-            return create_void();
+            fprintf(stderr, "Runtime Error: array_pop() on empty array\n");
+            exit(1);  /* as every other out-of-range array operation */
         }
         int last = fa->length - 1;
         switch (fa->element_type) {
@@ -1268,8 +1268,8 @@ static Value builtin_array_pop(Value *args) {
     DynArray *arr = args[0].as.dyn_array_val;
     
     if (dyn_array_length(arr) == 0) {
-        fprintf(stderr, "Error: array_pop() on empty array\n");
-        return create_void();
+        fprintf(stderr, "Runtime Error: array_pop() on empty array\n");
+        exit(1);  /* as every other out-of-range array operation */
     }
     
     /* Pop element based on type */
